@@ -70,7 +70,8 @@ CheckLive(t) ==
 CheckStatic(t) ==
     LET rep == [ts |-> t.ts, durs |-> t.durs, sn |-> t.sn, segdur |-> t.D, st |-> t.st] IN
     /\ Report("C06_InitRetrievable", t.init = 200, t.init)
-    /\ Report("C06_DeclaredDuration", t.mpd_dur_ms = t.ref_dur_ms, [mpd |-> t.mpd_dur_ms, ref |-> t.ref_dur_ms])
+    /\ Report("C06_DeclaredDuration", t.ref_ms_lo <= t.mpd_dur_ms /\ t.mpd_dur_ms <= t.ref_ms_hi,
+              [mpd |-> t.mpd_dur_ms, lo |-> t.ref_ms_lo, hi |-> t.ref_ms_hi])
     /\ \A i \in 1..Len(t.keys) :
          Report("C06_AllEnumeratedServed", t.serve[i].status = 200,
                 [by |-> t.by, key |-> t.keys[i], i |-> i, n |-> Len(t.durs), status |-> t.serve[i].status])
@@ -97,7 +98,8 @@ CheckStatic(t) ==
 (*   seg_end:[..] (independent scan: first byte / last byte+1 of each stored segment),          *)
 (*   init_end, flen, fetched:[{status, ok}] }                                                   *)
 CheckOnDemand(t) ==
-    /\ Report("C06_DeclaredDuration", t.mpd_dur_ms = t.ref_dur_ms, [mpd |-> t.mpd_dur_ms, ref |-> t.ref_dur_ms])
+    /\ Report("C06_DeclaredDuration", t.ref_ms_lo <= t.mpd_dur_ms /\ t.mpd_dur_ms <= t.ref_ms_hi,
+              [mpd |-> t.mpd_dur_ms, lo |-> t.ref_ms_lo, hi |-> t.ref_ms_hi])
     /\ Report("C06_RangesTile",
               /\ t.init_range[1] = 0
               /\ Len(t.media_ranges) = Len(t.seg_pos)
